@@ -129,6 +129,13 @@ def judge(case):
         if got != want:
             return ("violated", "C02:stage-start-count:%s:kind=%s:got=%s" % (
                 feat, st["kind"], "0" if got == 0 else "2+"), res)
+    # (a') a writer whose reader is gone must get SIGPIPE: every stage starts with SIGPIPE neither ignored nor blocked
+    for i, lst in starts.items():
+        for _, x in lst:
+            if (x.get("sig_ign", 0) | x.get("sig_blk", 0)) & (1 << 13):
+                res["sig_ign"], res["sig_blk"] = x.get("sig_ign"), x.get("sig_blk")
+                return ("violated", "C02:stage-started-with-SIGPIPE-%s" % (
+                    "ignored" if x.get("sig_ign", 0) & (1 << 13) else "blocked"), res)
     # every vp_st stage that was not killed before logging must have ended
     for i, st in enumerate(stages):
         if st["kind"] in ("src", "flt", "snk", "noread") and len(ends.get(i, [])) != 1:
